@@ -349,3 +349,7 @@ impl JobDemandDimension for Dimensions {
         self.get_value::<JobDemandDimenKey, _>()
     }
 }
+
+#[cfg(kani)]
+#[path = "/verif/kani/vrp-core/capacity_proofs.rs"]
+mod verif_kani_proofs;
